@@ -28,6 +28,39 @@ type Attr struct {
 // UnmarshalXML is a custom unmarshal function used by xml.Unmarshal to
 // transform generic XML content into hierarchical Node structure.
 func (n *Node) UnmarshalXML(d *xml.Decoder, start xml.StartElement) error {
+	// The tree is built with an explicit stack of open elements and not by recursion: the nesting depth
+	// is chosen by the peer, and a goroutine stack that overflows cannot be recovered from.
+	type open struct {
+		node *Node
+		text []byte
+	}
+	n.setStart(start)
+	stack := []open{{node: n}}
+	for len(stack) > 0 {
+		t, err := d.Token()
+		if err != nil {
+			return err
+		}
+		top := &stack[len(stack)-1]
+		switch tt := t.(type) {
+		case xml.StartElement:
+			top.node.Nodes = append(top.node.Nodes, Node{})
+			child := &top.node.Nodes[len(top.node.Nodes)-1]
+			child.setStart(tt)
+			stack = append(stack, open{node: child})
+		case xml.CharData:
+			top.text = append(top.text, tt...)
+		case xml.EndElement:
+			top.node.Content = string(top.text)
+			stack = stack[:len(stack)-1]
+		}
+	}
+	return nil
+}
+
+// setStart sets the name and the attributes of the node from its start tag.
+func (n *Node) setStart(start xml.StartElement) {
+	n.XMLName = start.Name
 	// Assign	"n.Attrs = start.Attr", without repeating xmlns in attributes:
 	for _, attr := range start.Attr {
 		// Do not repeat xmlns, it is already in XMLName
@@ -36,8 +69,6 @@ func (n *Node) UnmarshalXML(d *xml.Decoder, start xml.StartElement) error {
 			n.Attrs = append(n.Attrs, attr)
 		}
 	}
-	type node Node
-	return d.DecodeElement((*node)(n), &start)
 }
 
 // MarshalXML is a custom XML serializer used by xml.Marshal to serialize a
